@@ -16,6 +16,8 @@ mod c35;
 mod c36;
 mod c27;
 mod c26;
+mod c28;
+mod c29f;
 mod gens;
 mod lang;
 mod vrlrun;
@@ -52,6 +54,8 @@ const EXECS: &[Exec] = &[
     c36::exec,
     c27::exec,
     c26::exec,
+    c28::exec,
+    c29f::exec,
 ];
 
 /// Run one case (`op` + inputs) on the implementation: the first module that recognises the op answers.
@@ -76,7 +80,6 @@ fn generate(prop: &str, sink: &mut sink::Sink, rng: &mut rng::Rng, n: u64) -> bo
         "C10" => c10::generate(sink, rng, n),
         "C11" => c11::generate(sink, rng, n),
         "C25" => c25::generate(sink, rng, n),
-        "C29int" => c29::generate(sink, rng, n),
         "C20" => c20::generate(sink, rng, n),
         "C22" => c22::generate(sink, rng, n),
         "C23" => c23::generate(sink, rng, n),
@@ -85,6 +88,11 @@ fn generate(prop: &str, sink: &mut sink::Sink, rng: &mut rng::Rng, n: u64) -> bo
         "C36" => c36::generate(sink, rng, n),
         "C27" => c27::generate(sink, rng, n),
         "C26" => c26::generate(sink, rng, n),
+        "C28" => c28::generate(sink, rng, n),
+        "C29" => {
+            c29::generate(sink, rng, n);
+            c29f::generate(sink, rng, n);
+        }
         _ => return false,
     }
     true
